@@ -257,7 +257,8 @@ def _generated(rng, tier, focus, allow_degenerate=True):
     if focus == "C06" and min(n_start, n_end) >= 2 and rng.random() < 0.2:
         # the SAME Alignment object is used again: after the first alignment the mobile molecule is re-assigned with another
         # conformation of the same species (other bond lengths) and aligned once more
-        tr["second"] = {"amp": rng.choice([0.02, 0.05, 0.1]), "seed": rng.randrange(2 ** 31), "also_fixed": rng.random() < 0.3}
+        tr["second"] = {"amp": rng.choice([0.02, 0.05, 0.1]), "seed": rng.randrange(2 ** 31), "also_fixed": rng.random() < 0.3,
+                        "rebond": rng.random() < 0.35}
     if focus == "C09" and rng.random() < 0.12:
         # the same molecules in other length units (coordinates ~1e-6 or ~1e3 of the usual): every comparison of the search
         # is scale-free, absolute thresholds are not
@@ -1178,6 +1179,12 @@ def _second_round(trace, ctx, ali, start_fixed, tree_mobile, deform, mobile_spec
             break
     else:
         return
+    if sec.get("rebond") and len(pos) >= 4 and tree_mobile:
+        # ... of the same atoms with ANOTHER (acyclic) bond graph: a corrected topology of the same species.  The molecule
+        # compares equal to the stored one (names and numbers), so the Alignment takes it; its bonds are the ones to keep
+        spec = dict(spec, edges=[list(e) for e in gen.random_tree(r2, len(pos))])
+        mobile_spec = spec
+        ctx.probe("mobile_molecule_reassigned_with_another_bond_graph")
     try:
         setattr(ali, mob_key, gen.make_molecule(spec, positions=new.tolist()))
         if sec.get("also_fixed"):
